@@ -545,14 +545,21 @@ Fixpoint bar_evs (ops : list eop) (now : N) (b : bar R) : list ev :=
 
 (** the (position, instant) pairs a user can see: the position right after every call that can
     reach the estimator (everything except clock advances, queries, finish, abandon), whether or
-    not the position limiter lets it through *)
+    not the position limiter lets it through.  A call that leaves the position exactly where the
+    estimator's baseline already is - a tick / set_length / set_message (or a repeated
+    set_position) after an update that was recorded - brings no news: [record] ignores it, and it
+    is NOT listed (so such calls may be interleaved anywhere in a steady stream).  reset_eta /
+    reset_elapsed / reset are always listed: they make the pair the new baseline. *)
 Definition reaches_est (o : eop) : bool :=
   match o with Adv _ | Query | Finish | Abandon => false | _ => true end.
+Definition brings_news (o : eop) (now : N) (b : bar R) : bool :=
+  reaches_est o &&
+  (is_reset_op o || negb (N.eqb (b_pos (bar_step Rar o now b)) (prev_steps (b_est b)))).
 Fixpoint bar_points (ops : list eop) (now : N) (b : bar R) : list (N * N) :=
   match ops with
   | [] => []
   | o :: r =>
-      (if reaches_est o then [(b_pos (bar_step Rar o now b), now)] else [])
+      (if brings_news o now b then [(b_pos (bar_step Rar o now b), now)] else [])
       ++ bar_points r (clock_step o now) (bar_step Rar o now b)
   end.
 
